@@ -9,12 +9,33 @@ import (
 // Kinds j3 / j2 / o3 with SYNTHETIC leaves: a leaf has a fixed box and a canned answer for the current
 // query, and records every call of a query method in a shared trace.
 
+// A synthetic leaf is a FUNCTION of the query it is asked: its canned answer belongs to the caller's query
+// (by value: origin and direction, centre and radius, end points, corners, vertices); asked anything else - a
+// box clipped to a node's bounds, a shortened segment, a ray moved to the box entry - it reports nothing (which
+// is sound for every query), and the call shows up in the trace as -(id+1).  An index must hand its members
+// the caller's query: their own tests (edge tests for real triangles) run on what they are handed.
 type synState struct {
 	trace []int
 	ans   []lans
+	q     query // the caller's query
 }
 
-func (st *synState) hit(id int) lans { st.trace = append(st.trace, id); return st.ans[id] }
+func (st *synState) hit(id int, same bool) lans {
+	if !same {
+		st.trace = append(st.trace, -(id + 1))
+		return lans{}
+	}
+	st.trace = append(st.trace, id)
+	return st.ans[id]
+}
+
+func (st *synState) ray3(r *model3d.Ray) bool {
+	return r != nil && r.Origin == c3(st.q.v(0)) && r.Direction == c3(st.q.v(1))
+}
+
+func (st *synState) ray2(r *model2d.Ray) bool {
+	return r != nil && r.Origin == c2(st.q.w(0)) && r.Direction == c2(st.q.w(1))
+}
 
 // synth3 implements model3d.Collider + TriangleCollider + SegmentCollider + RectCollider.
 type synth3 struct {
@@ -26,7 +47,7 @@ type synth3 struct {
 func (s *synth3) Min() model3d.Coord3D { return c3(s.b.lo) }
 func (s *synth3) Max() model3d.Coord3D { return c3(s.b.hi) }
 func (s *synth3) RayCollisions(r *model3d.Ray, f func(model3d.RayCollision)) int {
-	a := s.st.hit(s.id)
+	a := s.st.hit(s.id, s.st.ray3(r))
 	for j, sc := range a.scales {
 		if f != nil {
 			f(model3d.RayCollision{Scale: sc, Extra: 1000*s.id + j})
@@ -35,17 +56,24 @@ func (s *synth3) RayCollisions(r *model3d.Ray, f func(model3d.RayCollision)) int
 	return len(a.scales)
 }
 func (s *synth3) FirstRayCollision(r *model3d.Ray) (model3d.RayCollision, bool) {
-	a := s.st.hit(s.id)
+	a := s.st.hit(s.id, s.st.ray3(r))
 	if !a.has {
 		return model3d.RayCollision{}, false
 	}
 	return model3d.RayCollision{Scale: a.s, Extra: 1000 * s.id}, true
 }
-func (s *synth3) SphereCollision(c model3d.Coord3D, r float64) bool { return s.st.hit(s.id).flag }
-func (s *synth3) SegmentCollision(seg model3d.Segment) bool         { return s.st.hit(s.id).flag }
-func (s *synth3) RectCollision(r *model3d.Rect) bool                { return s.st.hit(s.id).flag }
+func (s *synth3) SphereCollision(c model3d.Coord3D, r float64) bool {
+	return s.st.hit(s.id, c == c3(s.st.q.v(0)) && r == s.st.q.a[3]).flag
+}
+func (s *synth3) SegmentCollision(seg model3d.Segment) bool {
+	return s.st.hit(s.id, seg[0] == c3(s.st.q.v(0)) && seg[1] == c3(s.st.q.v(1))).flag
+}
+func (s *synth3) RectCollision(r *model3d.Rect) bool {
+	return s.st.hit(s.id, r != nil && r.MinVal == c3(s.st.q.v(0)) && r.MaxVal == c3(s.st.q.v(1))).flag
+}
 func (s *synth3) TriangleCollisions(t *model3d.Triangle) []model3d.Segment {
-	a := s.st.hit(s.id)
+	q := s.st.q
+	a := s.st.hit(s.id, t != nil && t[0] == c3(q.v(0)) && t[1] == c3(q.v(1)) && t[2] == c3(q.v(2)))
 	var out []model3d.Segment
 	for _, id := range a.ids { // the id travels in the first coordinate of the dummy segment
 		out = append(out, model3d.Segment{model3d.X(float64(id)), model3d.X(float64(id) + 0.5)})
@@ -63,7 +91,7 @@ type synth2 struct {
 func (s *synth2) Min() model2d.Coord { return c2(s.b.lo) }
 func (s *synth2) Max() model2d.Coord { return c2(s.b.hi) }
 func (s *synth2) RayCollisions(r *model2d.Ray, f func(model2d.RayCollision)) int {
-	a := s.st.hit(s.id)
+	a := s.st.hit(s.id, s.st.ray2(r))
 	for j, sc := range a.scales {
 		if f != nil {
 			f(model2d.RayCollision{Scale: sc, Extra: 1000*s.id + j})
@@ -72,15 +100,21 @@ func (s *synth2) RayCollisions(r *model2d.Ray, f func(model2d.RayCollision)) int
 	return len(a.scales)
 }
 func (s *synth2) FirstRayCollision(r *model2d.Ray) (model2d.RayCollision, bool) {
-	a := s.st.hit(s.id)
+	a := s.st.hit(s.id, s.st.ray2(r))
 	if !a.has {
 		return model2d.RayCollision{}, false
 	}
 	return model2d.RayCollision{Scale: a.s, Extra: 1000 * s.id}, true
 }
-func (s *synth2) CircleCollision(c model2d.Coord, r float64) bool { return s.st.hit(s.id).flag }
-func (s *synth2) SegmentCollision(seg *model2d.Segment) bool      { return s.st.hit(s.id).flag }
-func (s *synth2) RectCollision(r *model2d.Rect) bool              { return s.st.hit(s.id).flag }
+func (s *synth2) CircleCollision(c model2d.Coord, r float64) bool {
+	return s.st.hit(s.id, c == c2(s.st.q.w(0)) && r == s.st.q.a[2]).flag
+}
+func (s *synth2) SegmentCollision(seg *model2d.Segment) bool {
+	return s.st.hit(s.id, seg != nil && seg[0] == c2(s.st.q.w(0)) && seg[1] == c2(s.st.q.w(1))).flag
+}
+func (s *synth2) RectCollision(r *model2d.Rect) bool {
+	return s.st.hit(s.id, r != nil && r.MinVal == c2(s.st.q.w(0)) && r.MaxVal == c2(s.st.q.w(1))).flag
+}
 
 // synthObj implements render3d.Object.
 type synthObj struct {
@@ -92,7 +126,7 @@ type synthObj struct {
 func (s *synthObj) Min() model3d.Coord3D { return c3(s.b.lo) }
 func (s *synthObj) Max() model3d.Coord3D { return c3(s.b.hi) }
 func (s *synthObj) Cast(r *model3d.Ray) (model3d.RayCollision, render3d.Material, bool) {
-	a := s.st.hit(s.id)
+	a := s.st.hit(s.id, s.st.ray3(r))
 	if !a.has {
 		return model3d.RayCollision{}, nil, false
 	}
@@ -525,7 +559,7 @@ func (g *G) synthJ3() int {
 		q.scaleScene(ss)
 		sound := g.p(0.5)
 		st.ans = g.answers(3, q, bs, sound)
-		st.trace = nil
+		st.trace, st.q = nil, q
 		res := run3(coll, q, synthConv3)
 		tr := append([]int{}, st.trace...)
 		g.emitHier("j3", 3, q, true, sound, bs, st.ans, sh, res, tr)
@@ -570,7 +604,7 @@ func (g *G) synthJ2() int {
 		q.scaleScene(ss)
 		sound := g.p(0.5)
 		st.ans = g.answers(2, q, bs, sound)
-		st.trace = nil
+		st.trace, st.q = nil, q
 		res := run2(coll, q, synthTag2)
 		tr := append([]int{}, st.trace...)
 		g.emitHier("j2", 2, q, true, sound, bs, st.ans, sh, res, tr)
@@ -631,7 +665,7 @@ func (g *G) synthO3() int {
 		q.scaleScene(ss)
 		sound := g.p(0.5)
 		st.ans = g.answers(3, q, bs, sound)
-		st.trace = nil
+		st.trace, st.q = nil, q
 		res := runObj(obj, q)
 		tr := append([]int{}, st.trace...)
 		g.emitHier("o3", 3, q, true, sound, bs, st.ans, sh, res, tr)
